@@ -59,7 +59,9 @@ def _build(case):
     i = case["in"]
     fn = i["fn"]
     mode = i["mode"]
-    units = None if mode["name"] == "unitless" else u
+    # the units object is passed iff the configuration says so (for relations without a `constants`
+    # argument: whenever the inputs are quantities)
+    units = u if mode.get("uobj", mode["name"] != "unitless") else None
     if fn == "water_density":
         from chempy.properties.water_density_tanaka_2001 import water_density
         T = _arg(case, "T")
@@ -201,6 +203,7 @@ def replay_case(case):
 def _key(case, why):
     m = case["in"]["mode"]
     return {"fn": case["in"]["fn"], "mode": m["name"], "constants": "object" if m["consts"] else "none",
+            "units_arg": "object" if m.get("uobj", m["name"] != "unitless") else "none",
             "clause": why}
 
 
@@ -234,7 +237,7 @@ def series_trace(item):
     for t in ts:
         args = dict(fixed)
         args["T"] = [t, 100]
-        case = {"in": {"fn": fn, "mode": {"name": "unitless", "consts": False}, "args": args, "sel": 0,
+        case = {"in": {"fn": fn, "mode": {"name": "unitless", "consts": False, "uobj": False}, "args": args, "sel": 0,
                        "given": {k: {"mag": v, "unit": "none", "mul": [1, 1]} for k, v in args.items() if k in ("T", "P")},
                        "names": {"ions": [], "gas": ""}, "conc": None}}
         o = physq.observe(_build(case), WARN_WORDS)
@@ -259,6 +262,12 @@ def run(ctx):
     fns = {c["in"]["fn"] for c in cases}
     if len(fns) < 13:
         raise core.MachineryFailure("vacuity: only %d relations produced cases" % len(fns))
+    # every accepted (constants x units object x input form) configuration of the relations taking `constants`
+    for f, n_cfg in (("nernst", 10), ("mobility", 7)):
+        have = {(c["in"]["mode"]["name"], c["in"]["mode"]["consts"], c["in"]["mode"]["uobj"])
+                for c in cases if c["in"]["fn"] == f}
+        if len(have) != n_cfg:
+            raise core.MachineryFailure("vacuity: %s has %d call configurations, expected %d" % (f, len(have), n_cfg))
     for need in ("Toutside", "inside", "otheroutside"):
         if not any(c.endswith(need) for c in classes):
             raise core.MachineryFailure("vacuity: no case of range class %s" % need)
